@@ -285,6 +285,18 @@ macro_rules! to_str {
     };
 }
 
+macro_rules! ok_or_last_error {
+    ($res:expr) => {
+        match $res {
+            Ok(_) => true,
+            Err(err) => {
+                write_last_error!("{}", err);
+                false
+            }
+        }
+    };
+}
+
 #[unsafe(no_mangle)]
 pub extern "C" fn wirefilter_add_type_field_to_scheme(
     builder: &mut SchemeBuilder,
@@ -293,7 +305,7 @@ pub extern "C" fn wirefilter_add_type_field_to_scheme(
     ty: CType,
 ) -> bool {
     let name = to_str!(name_ptr, name_len);
-    builder.add_field(name, ty.into()).is_ok()
+    ok_or_last_error!(builder.add_field(name, ty.into()))
 }
 
 #[unsafe(no_mangle)]
@@ -301,7 +313,7 @@ pub extern "C" fn wirefilter_add_always_list_to_scheme(
     builder: &mut SchemeBuilder,
     ty: CType,
 ) -> bool {
-    builder.add_list(ty.into(), AlwaysList {}).is_ok()
+    ok_or_last_error!(builder.add_list(ty.into(), AlwaysList {}))
 }
 
 #[unsafe(no_mangle)]
@@ -309,7 +321,7 @@ pub extern "C" fn wirefilter_add_never_list_to_scheme(
     builder: &mut SchemeBuilder,
     ty: CType,
 ) -> bool {
-    builder.add_list(ty.into(), NeverList {}).is_ok()
+    ok_or_last_error!(builder.add_list(ty.into(), NeverList {}))
 }
 
 #[unsafe(no_mangle)]
@@ -578,7 +590,7 @@ pub extern "C" fn wirefilter_add_int_value_to_execution_context(
     value: i64,
 ) -> bool {
     let name = to_str!(name_ptr, name_len);
-    exec_context.set_field_value_from_name(name, value).is_ok()
+    ok_or_last_error!(exec_context.set_field_value_from_name(name, value))
 }
 
 #[unsafe(no_mangle)]
@@ -592,7 +604,7 @@ pub extern "C" fn wirefilter_add_bytes_value_to_execution_context(
     let name = to_str!(name_ptr, name_len);
     assert!(!value_ptr.is_null());
     let value = unsafe { std::slice::from_raw_parts(value_ptr, value_len) };
-    exec_context.set_field_value_from_name(name, value).is_ok()
+    ok_or_last_error!(exec_context.set_field_value_from_name(name, value))
 }
 
 #[unsafe(no_mangle)]
@@ -603,9 +615,7 @@ pub extern "C" fn wirefilter_add_ipv6_value_to_execution_context(
     value: &[u8; 16],
 ) -> bool {
     let name = to_str!(name_ptr, name_len);
-    exec_context
-        .set_field_value_from_name(name, IpAddr::from(*value))
-        .is_ok()
+    ok_or_last_error!(exec_context.set_field_value_from_name(name, IpAddr::from(*value)))
 }
 
 #[unsafe(no_mangle)]
@@ -616,9 +626,7 @@ pub extern "C" fn wirefilter_add_ipv4_value_to_execution_context(
     value: &[u8; 4],
 ) -> bool {
     let name = to_str!(name_ptr, name_len);
-    exec_context
-        .set_field_value_from_name(name, IpAddr::from(*value))
-        .is_ok()
+    ok_or_last_error!(exec_context.set_field_value_from_name(name, IpAddr::from(*value)))
 }
 
 #[unsafe(no_mangle)]
@@ -629,7 +637,7 @@ pub extern "C" fn wirefilter_add_bool_value_to_execution_context(
     value: bool,
 ) -> bool {
     let name = to_str!(name_ptr, name_len);
-    exec_context.set_field_value_from_name(name, value).is_ok()
+    ok_or_last_error!(exec_context.set_field_value_from_name(name, value))
 }
 
 #[derive(Debug)]
